@@ -50,6 +50,8 @@ def make_table(spec):
     elif pat == 'near_monotone':
         # two almost perfectly monotone columns (tau about 0.97-0.99): h-functions reach 0 and 1 in floating point
         X[:, -1] = X[:, 0] + float(rng.uniform(0.01, 0.04)) * rng.standard_normal(n)
+    elif pat == 'near_monotone_exp':
+        X[:, -1] = np.exp(X[:, 0]) + 0.02 * rng.standard_normal(n)
     perm = spec.get('perm') or list(range(d))
     X = X[:, perm]
     return pd.DataFrame(X, columns=['x%d' % i for i in range(d)])
